@@ -3,4 +3,6 @@ import LettreVerif.Props.C20
 #print axioms LV.C20.sync_send_bounded
 #print axioms LV.C20.waiting_read_is_error
 #print axioms LV.C20.broken_not_parked
+#print axioms LV.C20.send_raw_waits_bounded
+#print axioms LV.C20.sync_send_raw_bounded
 #print axioms LV.C20.tokio_unbounded_witness
